@@ -31,11 +31,14 @@ SessionsStayInRoot (real protocol, real filesystem, audited)
           symbolic links, so lexical and physical containment coincide.)  Read-only access to the
           interpreter's own code files (imports, traceback source lines) is not an FTP path access and is
           ignored.  stat() is deliberately not audited: the statement lists open, list, create, rename,
-          delete.
+          delete.  Relative paths are resolved against the dir_fd the event reports, else against the
+          process working directory (the "open" event does not report a dir_fd; oracle (2) and (3) do not
+          depend on any of this).
       (2) state: after the session, everything under <base> that is not inside the root is byte for byte
           what it was before (nothing created, renamed, deleted or rewritten outside).
       (3) disclosure: neither the control connection nor any data connection ever carries the contents of
-          a file that lives outside the root, nor the name of an outside file that the client never sent.
+          a file that lives outside the root, nor the name of an outside file that the client never sent, nor
+          (SIZE / MDTM replies) the size or modification time that only files outside the roots have.
 
 Nothing is said about which reply codes are used, about what happens inside the root, or about whether
 the refusal happens in toSegments, in FilePath or in the kernel.
@@ -106,10 +109,12 @@ class ResolutionContained(Bounded):
     title = ("FTPShell(root)._path(toSegments(cwd, arg)), with cwd evolved by the real toSegments as CWD does, "
              "vs an independent lexical resolver: the result is the root or below it, or the argument is refused")
     scope = ("root /srv/c54/home/bob (sibling name bob2 is a token); arguments = every concatenation of up to 5 "
-             "(quick) / 6 (thorough) tokens from {'/', '..', '.', 'a', 'bob2', NUL, backslash, '*'}; working "
-             "directories = every directory reachable from / by up to 2 CWDs whose argument has up to 3 tokens "
-             "(all directories assumed to exist), deduplicated; thorough adds seeded random arguments of up to "
-             "14 tokens from a wider token set under random 3-CWD histories")
+             "(quick) / 6 (thorough) tokens from {'/', '..', '.', 'a', 'bob2', NUL, backslash, '*'}, each under 8 "
+             "CWD histories (depth 0..3, a directory named like the sibling, a refused CWD in the middle, odd "
+             "names); all directories are assumed to exist.  thorough adds: every argument of up to 5 tokens "
+             "under a seeded sample of 40 of the working directories reachable by two CWDs with arguments of up "
+             "to 3 tokens, and 150000 seeded random (3-CWD history, argument of up to 14 tokens) pairs from a "
+             "wider token set")
     functions = ["twisted.protocols.ftp.toSegments", "FTPAnonymousShell._path", "FilePath.descendant",
                  "FilePath.child"]
 
@@ -130,33 +135,31 @@ class ResolutionContained(Bounded):
             frontier = nxt
         return seen
 
+    # CWD histories of the quick tier: depth 0..3, names equal to the sibling's, a refused CWD in the middle,
+    # a directory whose name is a backslash / glob / dots-only-but-not-dotdot
+    QUICK_HISTORIES = ((), ("a",), ("bob2",), ("a/bob2",), ("a", "a/a"),
+                       ("a/a/a", "../../../..", ".."), ("*\\",), ("...",))
+
     def cases(self, tier, rng):
-        maxlen = 5 if tier == "quick" else 6
-        cwd_args = list(_strings(_PURE_TOKENS, 3))
-        hists = sorted(set(self._reachable_cwds(cwd_args, 2).values()), key=lambda h: (len(h), h))
-        # keep one history per distinct cwd depth/shape; all of them in thorough
-        if tier == "quick":
-            keep, shapes = [], set()
-            for h in hists:
-                cwd = self._cwd_after(h)
-                shape = (len(cwd), tuple(sorted(set(cwd))))
-                if shape not in shapes:
-                    shapes.add(shape)
-                    keep.append(h)
-            hists = keep[:6]
-        else:
-            hists = hists[:40]
-        for arg in _strings(_PURE_TOKENS, maxlen):
-            for h in hists:
-                if len(arg) and tier != "quick" and len(h) > 1 and arg.count("..") == 0 and "\0" not in arg:
-                    continue
+        quick = tier == "quick"
+        for arg in _strings(_PURE_TOKENS, 5 if quick else 6):
+            for h in self.QUICK_HISTORIES:
                 yield (h, arg)
-        if tier != "quick":
-            wide = _PURE_TOKENS + ("bob", "bo", "...", " ", "~", "%2e%2e", "..;", "\xff", "//", "../", "/..")
-            for _ in range(150000):
-                h = tuple("".join(rng.choice(wide) for _ in range(rng.randint(1, 4))) for _ in range(rng.randint(0, 3)))
-                arg = "".join(rng.choice(wide) for _ in range(rng.randint(1, 14)))
+        if quick:
+            return
+        # every working directory of depth <= 3 reachable by two CWDs with arguments of up to 3 tokens: a seeded
+        # sample of 40 of them, each with every argument of up to 5 tokens
+        reach = self._reachable_cwds(list(_strings(_PURE_TOKENS, 3)), 2)
+        hists = sorted(set(reach.values()) - set(self.QUICK_HISTORIES), key=lambda h: (len(h), h))
+        hists = rng.sample(hists, min(40, len(hists)))
+        for arg in _strings(_PURE_TOKENS, 5):
+            for h in hists:
                 yield (h, arg)
+        wide = _PURE_TOKENS + ("bob", "bo", "...", " ", "~", "%2e%2e", "..;", "\xff", "//", "../", "/..")
+        for _ in range(150000):
+            h = tuple("".join(rng.choice(wide) for _ in range(rng.randint(1, 4))) for _ in range(rng.randint(0, 3)))
+            arg = "".join(rng.choice(wide) for _ in range(rng.randint(1, 14)))
+            yield (h, arg)
 
     @staticmethod
     def _cwd_after(history):
@@ -197,6 +200,15 @@ class ResolutionContained(Bounded):
 SECRET = b"C54-TOP-SECRET-CONTENT-7f3a"
 UNLISTED = "zq_unlisted_c54.bin"
 UPLOAD = b"C54-UPLOAD-PAYLOAD\r\n"
+OUTSIDE_SIZE = 4099  # every file outside the roots has this size ...
+OUTSIDE_MTIME = 946684799  # ... and this modification time, 1999-12-31 23:59:59 UTC
+OUTSIDE_MDTM = b"19991231235959"
+
+
+def _secret(tag):
+    body = SECRET + b" " + tag + b"\n"
+    return body + b"#" * (OUTSIDE_SIZE - len(body))
+
 
 
 def _root_tree(prefix):
@@ -214,16 +226,16 @@ def _root_tree(prefix):
 def _sibling_tree(prefix):
     return {
         prefix: None,
-        prefix + "/secret.txt": SECRET + b" " + prefix.encode() + b"\n",
-        prefix + "/" + UNLISTED: SECRET + b" unlisted\n",
+        prefix + "/secret.txt": _secret(prefix.encode()),
+        prefix + "/" + UNLISTED: _secret(b"unlisted"),
         prefix + "/d": None,
-        prefix + "/d/inner.txt": SECRET + b" inner\n",
+        prefix + "/d/inner.txt": _secret(b"inner"),
         prefix + "/e": None,
     }
 
 
 def _pristine():
-    t = {"outside.txt": SECRET + b" base\n", "home": None, "home/outside.txt": SECRET + b" home\n"}
+    t = {"outside.txt": _secret(b"base"), "home": None, "home/outside.txt": _secret(b"home")}
     for root in ("bob", "anon"):
         t.update(_root_tree("home/" + root))
         t.update(_sibling_tree("home/" + root + "2"))
@@ -371,6 +383,8 @@ class _World:
             else:
                 with open(full, "wb") as f:
                     f.write(PRISTINE[rel])
+                if len(PRISTINE[rel]) == OUTSIDE_SIZE:
+                    os.utime(full, (OUTSIDE_MTIME, OUTSIDE_MTIME))
 
     def snapshot(self):
         snap = {}
@@ -492,12 +506,31 @@ class _Session:
         return list(getattr(self.pi, "workingDirectory", []) or [])
 
 
-class _NullSink:
+class _Quiet:
+    """Detach the observers that print logged failures to stderr before logging has begun."""
+
+    def __init__(self):
+        from twisted.logger import globalLogBeginner, globalLogPublisher
+
+        self.undo = []
+        tmp = getattr(globalLogBeginner, "_temporaryObserver", None)
+        if tmp is not None and tmp in getattr(globalLogPublisher, "_observers", ()):
+            globalLogPublisher.removeObserver(tmp)
+            self.undo.append(lambda: globalLogPublisher.addObserver(tmp))
+        legacy = getattr(log, "defaultObserver", None)
+        if legacy is not None and "stderr" not in vars(legacy):
+            legacy.stderr = self
+            self.undo.append(lambda: vars(legacy).pop("stderr", None))
+
     def write(self, text):
         pass
 
     def flush(self):
         pass
+
+    def restore(self):
+        while self.undo:
+            self.undo.pop()()
 
 
 def run_session(user, commands):
@@ -512,9 +545,7 @@ def run_session(user, commands):
     had = "callLater" in vars(reactor)
     old = vars(reactor).get("callLater")
     reactor.callLater = clock.callLater  # lineReceived and DTPFactory schedule on the global reactor
-    stderr_observer = getattr(log, "defaultObserver", None)  # prints every logged failure to stderr
-    if stderr_observer is not None:
-        stderr_observer.stderr = _NullSink()
+    quiet = _Quiet()  # the server logs every refused command as an error; keep stderr readable
     _AUDIT["events"] = []
     session = None
     try:
@@ -534,8 +565,7 @@ def run_session(user, commands):
             reactor.callLater = old
         else:
             del reactor.callLater
-        if stderr_observer is not None:
-            del stderr_observer.stderr
+        quiet.restore()
         for call in clock.getDelayedCalls():
             call.cancel()
     events, _AUDIT["events"] = _AUDIT["events"], []
@@ -573,6 +603,9 @@ def run_session(user, commands):
             problems.append("%s carried the contents of a file outside the root: %r" % (where, data[:200]))
         if UNLISTED.encode() in data and UNLISTED.encode() not in sent:
             problems.append("%s carried the name of a file outside the root: %r" % (where, data[:200]))
+        if where == "control connection" and (OUTSIDE_MDTM in data or b" %d\r\n" % OUTSIDE_SIZE in data):
+            problems.append("%s carried the size / modification time of a file outside the root: %r"
+                            % (where, data[-120:]))
     if problems:
         return "; ".join(problems[:4])
     return None
